@@ -752,6 +752,13 @@ func WalkPaths(fn *ssa.Function, opts PathOpts, visit func(p *Path) bool) (n int
 				// also record under the unresolved condition and with phi operands resolved
 				k2, p2 := normCond(t.Cond)
 				nf[k2] = (edgeTrue == p2)
+				if k2.op == token.ILLEGAL && inl {
+					// an opaque boolean that is a parameter of an inlined helper is the caller's argument
+					if r := p.Resolve(k2.x, at); r != k2.x {
+						k3, p3 := normCond(r)
+						nf[k3] = ((edgeTrue == p2) == p3)
+					}
+				}
 				if k2.op != token.ILLEGAL {
 					k3 := k2
 					k3.x = p.Resolve(k2.x, at)
